@@ -38,6 +38,15 @@ Theorem C12_left_gets_nothing :
   forall s who chat ms, members s chat = Some ms ->
     exists ms', members (leave s who chat).1 chat = Some ms' /\ ~ In who ms' /\ recipients (leave s who chat).2 = ms'.
 Proof. exact left_is_not_member. Qed.
+(* a user who disconnected is a member of nothing (a later holder of its user ID inherits no chat); everybody else's
+   membership is untouched *)
+Theorem C12_departed_is_member_of_nothing :
+  forall s who chat ms, members (disconnect s who) chat = Some ms -> ~ In who ms.
+Proof. exact departed_is_member_of_nothing. Qed.
+Theorem C12_disconnect_keeps_other_members :
+  forall s who chat ms x, members s chat = Some ms -> x <> who -> In x ms ->
+    exists ms', members (disconnect s who) chat = Some ms' /\ In x ms'.
+Proof. exact disconnect_keeps_other_members. Qed.
 (* declining informs the members and changes no membership *)
 Theorem C12_declined_gets_nothing :
   forall s who chat ms, members s chat = Some ms -> recipients (decline s who chat) = ms.
@@ -61,3 +70,5 @@ Print Assumptions C12_public_audience.
 Print Assumptions C12_private_audience.
 Print Assumptions C12_left_gets_nothing.
 Print Assumptions C12_chat_text.
+Print Assumptions C12_departed_is_member_of_nothing.
+Print Assumptions C12_disconnect_keeps_other_members.
